@@ -314,7 +314,8 @@ theorem attemptAddition_congr {g : Bool} (r : Nat) {s s' : State} (h : Rel g s s
 theorem attemptDeletion_eq (r : Nat) (s : State) :
     attemptDeletion r s =
       match (s.obj r).toDelete with
-      | some l => (whereEq (s.obj r).labels l, s.setObj r (s.obj r))
+      | some l =>
+        if (uniqueLabels (s.obj r).labels).contains l then (whereEq (s.obj r).labels l, s.setObj r (s.obj r)) else ([], s)
       | none =>
         if (uniqueLabels (s.obj r).labels).isEmpty then ([], s)
         else (whereEq (s.obj r).labels (choice (uniqueLabels (s.obj r).labels) 0 s.inp).1,
@@ -322,7 +323,11 @@ theorem attemptDeletion_eq (r : Nat) (s : State) :
                 { s.obj r with toDelete := some (choice (uniqueLabels (s.obj r).labels) 0 s.inp).1 }) := by
   unfold attemptDeletion
   cases h : (s.obj r).toDelete with
-  | some l => simp only [h, Option.getD_some]
+  | some l =>
+    simp only [h]
+    by_cases hc : (uniqueLabels (s.obj r).labels).contains l = true
+    · simp only [hc, if_true, h, Option.getD_some]
+    · simp only [hc, Bool.false_eq_true, if_false]
   | none =>
     simp only [h]
     by_cases hu : (uniqueLabels (s.obj r).labels).isEmpty = true
@@ -334,7 +339,11 @@ theorem attemptDeletion_congr {g : Bool} (r : Nat) {s s' : State} (h : Rel g s s
   have hm := h.obj r
   rw [attemptDeletion_eq, attemptDeletion_eq, ← eObj_toDelete hm, ← eObj_labels hm, ← h.inp]
   cases htd : (s.obj r).toDelete with
-  | some l => exact ⟨rfl, h.setObj r hm⟩
+  | some l =>
+    simp only []
+    split
+    · exact ⟨rfl, h.setObj r hm⟩
+    · exact ⟨rfl, h⟩
   | none =>
     simp only []
     split
@@ -974,11 +983,14 @@ theorem attemptDeletion_at (r : Nat) (s : State) :
   rw [attemptDeletion_eq]
   cases htd : (s.obj r).toDelete with
   | some l =>
-    obtain ⟨a1, a2⟩ := setObj_at (AgreeOff.refl r s) (s.obj r)
-    refine ⟨a1, ?_⟩
-    rcases a2 with a2 | ⟨a2, a3⟩
-    · simp only []; rw [a2]
-    · simp only []; rw [a2, a3]
+    simp only []
+    split
+    · obtain ⟨a1, a2⟩ := setObj_at (AgreeOff.refl r s) (s.obj r)
+      refine ⟨a1, ?_⟩
+      rcases a2 with a2 | ⟨a2, a3⟩
+      · simp only []; rw [a2]
+      · simp only []; rw [a2, a3]
+    · exact ⟨AgreeOff.refl r s, rfl⟩
   | none =>
     simp only []
     split
